@@ -554,7 +554,9 @@ func wfValue(r *Rng, kind string, n int) []byte {
 		}
 		return r.Bytes(1)
 	case "str":
-		return r.BytesNoNul(n)
+		// accessors that return the value verbatim: NULs, blanks, dots, non-ASCII at
+		// either end must come back untouched
+		return genData(r, n, n)
 	case "strz":
 		v := r.BytesNoNul(n)
 		if n > 0 && r.Chance(1, 2) {
@@ -801,6 +803,9 @@ func genCtorArg(r *Rng, c *ctorEntry) string {
 		v := r.BytesNoNul(n)
 		if n > 0 && r.Chance(1, 4) {
 			v[n-1] = 0
+		}
+		if r.Chance(1, 3) {
+			v = genData(r, n, n)
 		}
 		if c.kind == "ucstr" && r.Chance(1, 3) {
 			v = tile(r, "strings", n)
